@@ -120,6 +120,11 @@ def build(cfg, seed):
             occs[: min(2, norb)] = [2.0, 1.0][: min(2, norb)]
             amb = np.zeros(norb)
             amb[min(2, norb) - 1] = 1.0 if norb >= 2 else 0.0
+        if kind == "ambzero":
+            # spin-unpolarised orbitals with singly occupied levels: occs_aminusb is present and identically zero, i.e. every
+            # orbital holds occs/2 alpha and occs/2 beta electrons (not the high-spin reading of integer occupations)
+            occs[: min(3, norb)] = [2.0, 1.0, 1.0][: min(3, norb)] if norb >= 2 else [1.0]
+            amb = np.zeros(norb)
         en = np.sort([round(rng.uniform(-3, 2), 6) for _ in range(norb)])
         if cfg.get("big"):
             en[0] = -1234.5678   # a core orbital energy beyond -1000 hartree
@@ -420,8 +425,10 @@ def shell_sets(fmt, rng, n):
         style = rng.random()
         if style < 0.6:
             cons = [t]
-        elif style < 0.8:
+        elif style < 0.75:
             cons = [(0, "c"), (1, "c")]
+        elif style < 0.8:
+            cons = [(1, "c"), (0, "c")]      # a generalized contraction that is *not* an SP shell (order matters)
         else:
             cons = [(0, "c"), t, (1, "c")] if rng.random() < 0.5 else [t, t]
         out.append(cons)
@@ -431,8 +438,8 @@ def shell_sets(fmt, rng, n):
 def plan(run, rng):
     tasks = []
     convs = ["fchk", "molden", "wfn", "horton2", "cca", "reversed", "signs", "random"]
-    mos = ["rclosed", "ropen", "unres", "amb", "generalized"]
-    n = run.pick(36, 1400)
+    mos = ["rclosed", "ropen", "unres", "amb", "generalized", "ambzero"]
+    n = run.pick(120, 4000)
     for fmt in FORMATS:
         for i in range(n):
             natom = rng.choice([1, 2, 2, 3])
